@@ -378,7 +378,14 @@ where
         let k = cmd["k"].as_u64().unwrap() as u8;
         match cmd["c"].as_str().unwrap() {
             "up" => {
-                let ctx = s.read_ctx().derive_add_ctx(actor);
+                // rotate through the read entry points: all of them carry the map clock as add context
+                let n = s.read_ctx().add_clock.get(&actor) as usize;
+                let ctx = match (k as usize + actor as usize + n) % 4 {
+                    0 => s.read_ctx().derive_add_ctx(actor),
+                    1 => s.get(&k).derive_add_ctx(actor),
+                    2 => s.len().derive_add_ctx(actor),
+                    _ => s.is_empty().derive_add_ctx(actor),
+                };
                 s.update(k, ctx, |inner, ctx| V::gen_nested(inner, ctx, &cmd["sub"]))
             }
             "rm" => s.rm(k, s.get(&k).derive_rm_ctx()),
